@@ -123,15 +123,20 @@ Proof.
       * intros i t Hin Hc. exact (H i t (or_intror Hin) Hc).
 Qed.
 
-Lemma cmd_multi tg oc : (2 <= length tg)%nat ->
+(* Tasks.Filtered, as probed on this run, is a pure function of its receiver: the roster's filters
+   leave the roster what it is *)
+Lemma roster_intact_in_source : roster_intact = true.
+Proof. vm_compute. reflexivity. Qed.
+
+Lemma cmd_multi tg oc : roster_intact = true -> (2 <= length tg)%nat ->
   classify (consolidate (commit tg oc)) = ROk <-> crit_acked_l tg oc.
 Proof.
-  intro Hlen. destruct tg as [|a [|b tg]]; cbn [length] in Hlen; try lia.
+  intros Hri Hlen. destruct tg as [|a [|b tg]]; cbn [length] in Hlen; try lia.
   rewrite <- existsb_commit_crit.
   remember (a :: b :: tg) as l. unfold consolidate.
   assert (Hc : exists x y r, commit l oc = x :: y :: r).
   { subst l. cbn. eauto. }
-  destruct Hc as (x & y & r & Hc). rewrite Hc. cbn [classify].
+  destruct Hc as (x & y & r & Hc). rewrite Hc. cbn [classify]. rewrite Hri. cbn [andb].
   destruct (existsb _ (x :: y :: r)); split; intro H; try reflexivity; discriminate.
 Qed.
 
@@ -143,14 +148,18 @@ Proof.
   destruct (r_crit t && resp_err (oc_at oc i)); split; intro H; try reflexivity; discriminate.
 Qed.
 
-Lemma classify_commit tg oc : tg <> [] ->
+Lemma classify_commit tg oc : roster_intact = true -> tg <> [] ->
   classify (consolidate (commit tg oc)) = ROk <-> crit_acked_l tg oc.
 Proof.
-  intro Hne. destruct tg as [|[i t] [|b tg]].
+  intros Hri Hne. destruct tg as [|[i t] [|b tg]].
   - congruence.
   - apply cmd_single.
-  - apply cmd_multi. cbn. lia.
+  - apply cmd_multi; [exact Hri|cbn; lia].
 Qed.
+
+(* without that, the error of a critical task among several is tolerated *)
+Lemma classify_multi_not_intact rs : roster_intact = false -> classify (CMulti rs) = ROk.
+Proof. intro H. cbn [classify]. rewrite H. reflexivity. Qed.
 
 Definition has_crit_target (ts : list rtask) : bool := existsb (fun p => r_crit (snd p)) (targets ts).
 
@@ -159,12 +168,27 @@ Proof. destruct r; cbn; split; intro H; try reflexivity; discriminate. Qed.
 
 (* the decision: the command goes through iff every critical commanded task acknowledged; for
    every task list (no target, one target, several) *)
-Lemma cmd_iff ts oc : res_ok (cmd_result ts oc) = true <-> crit_acked ts oc.
+Lemma cmd_iff_intact ts oc : roster_intact = true ->
+  (res_ok (cmd_result ts oc) = true <-> crit_acked ts oc).
 Proof.
-  unfold cmd_result, crit_acked. rewrite res_ok_iff.
+  intro Hri. unfold cmd_result, crit_acked. rewrite res_ok_iff.
   destruct (targets ts) as [|p tg] eqn:Et.
   - split; [intros _ i t []|reflexivity].
-  - apply classify_commit. discriminate.
+  - apply classify_commit; [exact Hri|discriminate].
+Qed.
+
+Lemma cmd_iff ts oc : res_ok (cmd_result ts oc) = true <-> crit_acked ts oc.
+Proof. exact (cmd_iff_intact ts oc roster_intact_in_source). Qed.
+
+(* with two targets or more and a roster that may have lost tasks every command goes through *)
+Lemma cmd_not_intact ts oc : roster_intact = false -> (2 <= length (targets ts))%nat ->
+  res_ok (cmd_result ts oc) = true.
+Proof.
+  intros Hri Hlen. unfold cmd_result. destruct (targets ts) as [|a [|b tg]]; cbn [length] in Hlen; try lia.
+  remember (a :: b :: tg) as l.
+  assert (Hc : exists x y r, commit l oc = x :: y :: r) by (subst l; cbn; eauto).
+  destruct Hc as (x & y & r & Hc). subst l. rewrite Hc. unfold consolidate.
+  rewrite (classify_multi_not_intact _ Hri). reflexivity.
 Qed.
 
 (* a critical commanded task that does not acknowledge fails the command, whatever else *)
